@@ -30,19 +30,19 @@ theorem IsDiag.ne_nil {e : Bytes} (h : IsDiag e) : e ≠ [] := by
 def DInv (p : PState) : Prop := (p.hadError = true ↔ p.log ≠ []) ∧ ∀ e ∈ p.log, IsDiag e
 
 /-- `m` keeps the invariant. -/
-structure Pres {α : Type} (m : PM α) : Prop where
+structure PPres {α : Type} (m : PM α) : Prop where
   h : ∀ p, DInv p → DInv (m p).2
 
-theorem Pres.pure {α} (a : α) : Pres (pure a : PM α) := ⟨fun _ h => h⟩
-theorem Pres.bind {α β} {m : PM α} {f : α → PM β} (hm : Pres m) (hf : ∀ a, Pres (f a)) : Pres (m >>= f) :=
+theorem PPres.pure {α} (a : α) : PPres (pure a : PM α) := ⟨fun _ h => h⟩
+theorem PPres.bind {α β} {m : PM α} {f : α → PM β} (hm : PPres m) (hf : ∀ a, PPres (f a)) : PPres (m >>= f) :=
   ⟨fun p hp => (hf _).h _ (hm.h p hp)⟩
-theorem Pres.get : Pres (get : PM PState) := ⟨fun _ h => h⟩
-theorem Pres.modify {g : PState → PState} (hg : ∀ p, DInv p → DInv (g p)) : Pres (_root_.modify g : PM Unit) := ⟨fun p hp => hg p hp⟩
-theorem Pres.ite {α} {c : Prop} [Decidable c] {x y : PM α} (hx : Pres x) (hy : Pres y) : Pres (if c then x else y) := by
+theorem PPres.get : PPres (get : PM PState) := ⟨fun _ h => h⟩
+theorem PPres.modify {g : PState → PState} (hg : ∀ p, DInv p → DInv (g p)) : PPres (_root_.modify g : PM Unit) := ⟨fun p hp => hg p hp⟩
+theorem PPres.ite {α} {c : Prop} [Decidable c] {x y : PM α} (hx : PPres x) (hy : PPres y) : PPres (if c then x else y) := by
   split <;> assumption
 
-theorem errorAt_pres (t : Token) (msg : Bytes) : Pres (errorAt t msg) := by
-  apply Pres.modify
+theorem errorAt_pres (t : Token) (msg : Bytes) : PPres (errorAt t msg) := by
+  apply PPres.modify
   intro p hp
   refine ⟨by simp, ?_⟩
   intro e he
@@ -51,124 +51,133 @@ theorem errorAt_pres (t : Token) (msg : Bytes) : Pres (errorAt t msg) := by
   · exact ⟨fmtPos p.lfs t.pos, _, by simp only [List.append_assoc]; rfl⟩
   · exact hp.2 e he
 
-theorem errorAtCurrent_pres (msg : Bytes) : Pres (errorAtCurrent msg) := by
+theorem errorAtCurrent_pres (msg : Bytes) : PPres (errorAtCurrent msg) := by
   unfold errorAtCurrent
-  exact Pres.bind Pres.get (fun _ => errorAt_pres _ _)
+  exact PPres.bind PPres.get (fun _ => errorAt_pres _ _)
 
-theorem error_pres (msg : Bytes) : Pres (error msg) := by
+theorem error_pres (msg : Bytes) : PPres (error msg) := by
   unfold error
-  exact Pres.bind Pres.get (fun _ => errorAt_pres _ _)
+  exact PPres.bind PPres.get (fun _ => errorAt_pres _ _)
 
-theorem advanceLoop_pres : ∀ (ts : List Token), Pres (advanceLoop ts)
-  | [] => by unfold advanceLoop; exact Pres.modify (fun p h => h)
+theorem advanceLoop_pres : ∀ (ts : List Token), PPres (advanceLoop ts)
+  | [] => by unfold advanceLoop; exact PPres.modify (fun p h => h)
   | t :: ts => by
     unfold advanceLoop
-    refine Pres.bind (Pres.modify (fun p h => h)) (fun _ => ?_)
+    refine PPres.bind (PPres.modify (fun p h => h)) (fun _ => ?_)
     split
-    · exact Pres.bind (errorAtCurrent_pres _) (fun _ => advanceLoop_pres ts)
-    · exact Pres.pure _
+    · exact PPres.bind (errorAtCurrent_pres _) (fun _ => advanceLoop_pres ts)
+    · exact PPres.pure _
 
-theorem advance_pres : Pres advance := by
+theorem advance_pres : PPres advance := by
   unfold advance
-  exact Pres.bind (Pres.modify (fun p h => h)) (fun _ => Pres.bind Pres.get (fun _ => advanceLoop_pres _))
+  exact PPres.bind (PPres.modify (fun p h => h)) (fun _ => PPres.bind PPres.get (fun _ => advanceLoop_pres _))
 
 /-- lemmas about already-treated functions are registered here -/
 syntax "pres_known" : tactic
-macro_rules | `(tactic| pres_known) => `(tactic| exact Pres.pure _)
-macro_rules | `(tactic| pres_known) => `(tactic| exact Pres.get)
+macro_rules | `(tactic| pres_known) => `(tactic| exact PPres.pure _)
+macro_rules | `(tactic| pres_known) => `(tactic| exact PPres.get)
 macro_rules | `(tactic| pres_known) => `(tactic| exact errorAt_pres _ _)
 macro_rules | `(tactic| pres_known) => `(tactic| exact errorAtCurrent_pres _)
 macro_rules | `(tactic| pres_known) => `(tactic| exact error_pres _)
 macro_rules | `(tactic| pres_known) => `(tactic| exact advanceLoop_pres _)
 macro_rules | `(tactic| pres_known) => `(tactic| exact advance_pres)
 
-theorem Pres.modify_frame {g : PState → PState} (h1 : ∀ p, (g p).hadError = p.hadError) (h2 : ∀ p, (g p).log = p.log) :
-    Pres (_root_.modify g : PM Unit) := by
+theorem PPres.modify_frame {g : PState → PState} (h1 : ∀ p, (g p).hadError = p.hadError) (h2 : ∀ p, (g p).log = p.log) :
+    PPres (_root_.modify g : PM Unit) := by
   refine ⟨fun p hp => ?_⟩
   show DInv (g p)
   unfold DInv at *
   rw [h1, h2]; exact hp
 
-theorem Pres.forIn {α β : Type} (l : List α) (f : α → β → PM (ForInStep β)) (hf : ∀ a b, Pres (f a b)) :
-    ∀ (init : β), Pres (forIn l init f) := by
+theorem PPres.forIn {α β : Type} (l : List α) (f : α → β → PM (ForInStep β)) (hf : ∀ a b, PPres (f a b)) :
+    ∀ (init : β), PPres (forIn l init f) := by
   induction l with
-  | nil => intro init; simp only [List.forIn_nil]; exact Pres.pure _
+  | nil => intro init; simp only [List.forIn_nil]; exact PPres.pure _
   | cons x xs ih =>
     intro init
     simp only [List.forIn_cons]
-    apply Pres.bind (hf x init)
+    apply PPres.bind (hf x init)
     intro r
     cases r with
-    | done b => exact Pres.pure _
+    | done b => exact PPres.pure _
     | yield b => exact ih b
 
 macro "pres" : tactic => `(tactic| repeat' (first
   | assumption
   | pres_known
-  | apply Pres.bind
-  | apply Pres.ite
-  | apply Pres.forIn
-  | (apply Pres.modify_frame <;> intro _ <;> rfl)
+  | apply PPres.bind
+  | apply PPres.ite
+  | apply PPres.forIn
+  | (apply PPres.modify_frame <;> intro _ <;> rfl)
   | intro _
   | split
   | dsimp only))
 
-theorem check_pres (t : TokType) : Pres (check t) := by unfold check; pres
+theorem check_pres (t : TokType) : PPres (check t) := by unfold check; pres
 macro_rules | `(tactic| pres_known) => `(tactic| exact check_pres _)
-theorem checkEnd_pres : Pres checkEnd := by unfold checkEnd; pres
+theorem checkEnd_pres : PPres checkEnd := by unfold checkEnd; pres
 macro_rules | `(tactic| pres_known) => `(tactic| exact checkEnd_pres)
-theorem consume_pres (t : TokType) (msg : Bytes) : Pres (consume t msg) := by unfold consume; pres
+theorem consume_pres (t : TokType) (msg : Bytes) : PPres (consume t msg) := by unfold consume; pres
 macro_rules | `(tactic| pres_known) => `(tactic| exact consume_pres _ _)
-theorem match_pres (t : TokType) : Pres («match» t) := by unfold «match»; pres
+theorem match_pres (t : TokType) : PPres («match» t) := by unfold «match»; pres
 macro_rules | `(tactic| pres_known) => `(tactic| exact match_pres _)
-theorem matchEnd_pres : Pres matchEnd := by unfold matchEnd; pres
+theorem matchEnd_pres : PPres matchEnd := by unfold matchEnd; pres
 macro_rules | `(tactic| pres_known) => `(tactic| exact matchEnd_pres)
 
-theorem syncLoop_pres : ∀ (f : Nat), Pres (syncLoop f)
+theorem syncLoop_pres : ∀ (f : Nat), PPres (syncLoop f)
   | 0 => by unfold syncLoop; pres
   | f+1 => by
     unfold syncLoop
     have := syncLoop_pres f
     pres
 macro_rules | `(tactic| pres_known) => `(tactic| exact syncLoop_pres _)
-theorem sync_pres (f : Nat) : Pres (sync f) := by unfold sync; pres
+theorem sync_pres (f : Nat) : PPres (sync f) := by unfold sync; pres
 macro_rules | `(tactic| pres_known) => `(tactic| exact sync_pres _)
 
-theorem addConst_pres (v : Value) : Pres (addConst v) :=
+theorem addConst_pres (v : Value) : PPres (addConst v) :=
   ⟨fun p hp => by
     simp only [addConst, bind, StateT.bind, get, getThe, MonadStateOf.get, StateT.get, set, StateT.set, pure, StateT.pure]
     exact hp⟩
 macro_rules | `(tactic| pres_known) => `(tactic| exact addConst_pres _)
 
-theorem makeConst_pres (v : Value) : Pres (makeConst v) := by unfold makeConst; pres
+theorem makeConst_pres (v : Value) : PPres (makeConst v) := by unfold makeConst; pres
 macro_rules | `(tactic| pres_known) => `(tactic| exact makeConst_pres _)
-theorem identConst_pres (n : Bytes) : Pres (identConst n) := by unfold identConst; pres
+theorem identConst_pres (n : Bytes) : PPres (identConst n) := by unfold identConst; pres
 macro_rules | `(tactic| pres_known) => `(tactic| exact identConst_pres _)
-theorem beginScope_pres : Pres beginScope := by unfold beginScope; pres
+theorem beginScope_pres : PPres beginScope := by unfold beginScope; pres
 macro_rules | `(tactic| pres_known) => `(tactic| exact beginScope_pres)
-theorem endScope_pres : Pres endScope :=
+theorem endScope_pres : PPres endScope :=
   ⟨fun p hp => by
     simp only [endScope, bind, StateT.bind, get, getThe, MonadStateOf.get, StateT.get, set, StateT.set, pure, StateT.pure]
     exact hp⟩
 macro_rules | `(tactic| pres_known) => `(tactic| exact endScope_pres)
-theorem addLocal_pres (n : Bytes) : Pres (addLocal n) := by unfold addLocal; pres
+theorem addLocal_pres (n : Bytes) : PPres (addLocal n) := by unfold addLocal; pres
 macro_rules | `(tactic| pres_known) => `(tactic| exact addLocal_pres _)
-theorem markInitialized_pres : Pres markInitialized := by
+theorem markInitialized_pres : PPres markInitialized := by
   unfold markInitialized
-  apply Pres.modify
+  apply PPres.modify
   intro p hp
   split <;> exact hp
 macro_rules | `(tactic| pres_known) => `(tactic| exact markInitialized_pres)
-theorem setStuck_pres : Pres setStuck := by unfold setStuck; pres
+theorem setStuck_pres : PPres setStuck := by unfold setStuck; pres
 macro_rules | `(tactic| pres_known) => `(tactic| exact setStuck_pres)
 
-theorem declVar_pres : Pres declVar := by
+theorem declVar_pres : PPres declVar := by
   unfold declVar
   pres
 macro_rules | `(tactic| pres_known) => `(tactic| exact declVar_pres)
 
 set_option maxHeartbeats 2000000 in
-theorem bindStmt_pres : Pres bindStmt := by
+theorem bindSel_pres : PPres bindSel := by
+  unfold bindSel
+  pres
+macro_rules | `(tactic| pres_known) => `(tactic| exact bindSel_pres)
+theorem bindTarget_pres (m : Bytes) : PPres (bindTarget m) := by
+  unfold bindTarget
+  pres
+macro_rules | `(tactic| pres_known) => `(tactic| exact bindTarget_pres _)
+set_option maxHeartbeats 2000000 in
+theorem bindStmt_pres : PPres bindStmt := by
   unfold bindStmt
   pres
 
@@ -177,8 +186,8 @@ macro_rules | `(tactic| pres_known) => `(tactic| exact bindStmt_pres)
 set_option maxHeartbeats 8000000 in
 /-- expressions: the three mutually recursive functions, by induction on the fuel -/
 theorem expr_pres_all : ∀ (f : Nat),
-    (∀ prec, Pres (parsePrecedence prec f)) ∧ (∀ prec left, Pres (infixLoop prec left f))
-    ∧ (∀ rule ca, Pres (prefixRule rule ca f))
+    (∀ prec, PPres (parsePrecedence prec f)) ∧ (∀ prec left, PPres (infixLoop prec left f))
+    ∧ (∀ rule ca, PPres (prefixRule rule ca f))
   | 0 => by
     refine ⟨fun prec => ?_, fun prec left => ?_, fun rule ca => ?_⟩
     · unfold parsePrecedence; pres
@@ -196,16 +205,16 @@ theorem expr_pres_all : ∀ (f : Nat),
     · unfold prefixRule
       cases rule <;> (pres <;> first | exact ih1 _ | exact ih2 _ _ | exact ih3 _ _ | skip)
 
-theorem expr_pres (f : Nat) : Pres (expr f) := by unfold expr; exact (expr_pres_all f).1 _
+theorem expr_pres (f : Nat) : PPres (expr f) := by unfold expr; exact (expr_pres_all f).1 _
 macro_rules | `(tactic| pres_known) => `(tactic| exact expr_pres _)
 
 set_option maxHeartbeats 2000000 in
-theorem varDecl_pres (f : Nat) : Pres (varDecl f) := by unfold varDecl; pres
+theorem varDecl_pres (f : Nat) : PPres (varDecl f) := by unfold varDecl; pres
 macro_rules | `(tactic| pres_known) => `(tactic| exact varDecl_pres _)
 
 set_option maxHeartbeats 8000000 in
 theorem stmt_pres_all : ∀ (f : Nat),
-    Pres (decl f) ∧ Pres (stmt f) ∧ Pres (blockStmt f) ∧ Pres (blockLoop f)
+    PPres (decl f) ∧ PPres (stmt f) ∧ PPres (blockStmt f) ∧ PPres (blockLoop f)
   | 0 => by
     refine ⟨?_, ?_, ?_, ?_⟩
     · unfold decl; pres
@@ -220,10 +229,10 @@ theorem stmt_pres_all : ∀ (f : Nat),
     · unfold blockStmt; pres
     · unfold blockLoop; pres
 
-theorem decl_pres (f : Nat) : Pres (decl f) := (stmt_pres_all f).1
+theorem decl_pres (f : Nat) : PPres (decl f) := (stmt_pres_all f).1
 macro_rules | `(tactic| pres_known) => `(tactic| exact decl_pres _)
 
-theorem topLoop_pres : ∀ (f : Nat), Pres (topLoop f)
+theorem topLoop_pres : ∀ (f : Nat), PPres (topLoop f)
   | 0 => by unfold topLoop; pres
   | f+1 => by
     have := topLoop_pres f
@@ -234,8 +243,8 @@ least one diagnostic: every rejection comes with a `line L:C: error…` line, ev
 acceptance is silent. -/
 theorem reject_iff_diagnostic (toks : List Token) (lfs : List Nat) :
     (parseTokens toks lfs).ok = false ↔ (parseTokens toks lfs).log ≠ [] := by
-  have hrun : Pres (do advance; let body ← topLoop (4 * toks.length + 16); let p ← get
-                       return ({ body, npop := p.locals.length, endPos := p.prev.pos } : Program)) := by
+  have hrun : PPres (do advance; let body ← topLoop (4 * toks.length + 16); let p ← get
+                        return ({ body, npop := p.locals.length, endPos := p.prev.pos } : Program)) := by
     have := topLoop_pres (4 * toks.length + 16)
     pres
   have hinv := hrun.h { rest := toks, lfs := lfs } (by simp [DInv])
@@ -265,8 +274,8 @@ theorem reject_iff_diagnostic (toks : List Token) (lfs : List Nat) :
 `line L:C: error…`. -/
 theorem diagnostics_form (toks : List Token) (lfs : List Nat) :
     ∃ entries : List Bytes, (parseTokens toks lfs).log = entries.flatten ∧ ∀ e ∈ entries, IsDiag e := by
-  have hrun : Pres (do advance; let body ← topLoop (4 * toks.length + 16); let p ← get
-                       return ({ body, npop := p.locals.length, endPos := p.prev.pos } : Program)) := by
+  have hrun : PPres (do advance; let body ← topLoop (4 * toks.length + 16); let p ← get
+                        return ({ body, npop := p.locals.length, endPos := p.prev.pos } : Program)) := by
     have := topLoop_pres (4 * toks.length + 16)
     pres
   have hinv := hrun.h { rest := toks, lfs := lfs } (by simp [DInv])
